@@ -66,22 +66,24 @@ def provoke(ctx, decoders=(), encoders=(), k=3):
         _prepare(ctx.rng)
     for d in decoders:
         for bad in ctx.rng.sample(_DAMAGED, min(k, len(_DAMAGED))):
-            try:
-                d.process(bad)
-                ctx.count('provoked_decode_accepted')
-            except Exception as e:
-                ctx.count('provoked_decode_failures')
-                ctx.add('provoked_exceptions', type(e).__name__)
+            for attempt in (1, 2):        # (the retry of a refused input is part of the history too)
+                try:
+                    d.process(bad)
+                    ctx.count('provoked_decode_accepted')
+                except Exception as e:
+                    ctx.count('provoked_decode_failures')
+                    ctx.add('provoked_exceptions', type(e).__name__)
     for e in encoders:
         if not _REFUSED_JSON:
             break
         for bad in ctx.rng.sample(_REFUSED_JSON, min(k, len(_REFUSED_JSON))):
-            try:
-                e.process(json.dumps(bad))
-                ctx.count('provoked_encode_accepted')
-            except Exception as ex:
-                ctx.count('provoked_encode_refusals')
-                ctx.add('provoked_exceptions', type(ex).__name__)
+            for attempt in (1, 2):
+                try:
+                    e.process(json.dumps(bad))
+                    ctx.count('provoked_encode_accepted')
+                except Exception as ex:
+                    ctx.count('provoked_encode_refusals')
+                    ctx.add('provoked_exceptions', type(ex).__name__)
 
 
 def maybe(ctx, decoders=(), encoders=(), every=5, k=2):
